@@ -29,6 +29,7 @@ var c05Kinds = []string{
 	bhCorrect, bhCorrect, bhCorrect, bhCorrect, bhShift, bhShift, bhShiftInside, bhShiftInside, bhRepeatPrev, bhReorder, bhForged, bhWrongChain, bhNoChain, bhBadValidate,
 	bhGarbage, bhUnknownCode, bhUnknownBody, bhNotFound, bhEmpty, bhShortPrefix, bhOverlap, bhMore, bhHang, bhReset, bhRawGarbage,
 	bhDupInside, bhGapInside, bhTruncated, bhOversized, bhNilBodyOK, bhInvalidCode,
+	bhPanicValidate, bhPanicVerify, bhPanicDecode,
 }
 
 func genC05(t *rapid.T) C05Scenario {
@@ -107,6 +108,9 @@ func (e *exchangeEnv) close() {
 }
 
 func runC05(t *testing.T, s C05Scenario) (res Result) {
+	// a header type with a crashing code path on attacker-chosen content: "no peer response can crash the client"
+	vh.ArmPanics(true)
+	defer vh.ArmPanics(false)
 	bubble(t, func() {
 		chain := vh.ChainSpec{ChainID: "c05", N: 140, StartMs: -1_000_000}.Build()
 		e, err := newExchangeEnv(chain, s.Peers, s.Chunk, time.Duration(s.TimeoutMs)*time.Millisecond)
